@@ -163,13 +163,14 @@ func (c *Coordinator) worker(id int) {
 			defer func() {
 				if r := recover(); r != nil {
 					c.mu.Lock()
-					c.fatal = append(c.fatal, fmt.Sprintf("engine crash in %s: %v at %s", spec.Name, r, e.where()))
+					c.fatal = append(c.fatal, fmt.Sprintf("engine crash in %s: %v at %s", spec.Name, r, e.crashWhere))
 					c.mu.Unlock()
 					if c.cfg.Verbose {
-						fmt.Fprintf(os.Stderr, "ENGINE CRASH in %s: %v\n  at %s\n", spec.Name, r, e.where())
+						fmt.Fprintf(os.Stderr, "ENGINE CRASH in %s: %v\n  at %s\n", spec.Name, r, e.crashWhere)
 						panic(r)
 					}
 					e.journalOn = false
+					e.crashWhere = ""
 					e.rollback()
 				}
 			}()
